@@ -654,7 +654,7 @@ def gate(ctx, binp, drv):
                 cmeta.append(("cnvc", be, k, rs, off, 0, 0, -1, -1, [ac], [c], "random", max(ab, cb)))
     ciout, cmout = both(chl, cdl)
     nb = 0
-    cnv_oracle = {"checked": 0, "inexact": 0, "avx_by_const_32bit_truncation": 0}
+    cnv_oracle = {"checked": 0, "inexact": 0, "by_const_beyond_i32": 0}
     for i, mt in enumerate(cmeta):
         a_, b_ = ans_of(ciout, i), ans_of(cmout, i)
         op, be, k, rs, off, sl, sr, ml, mr, A_, B_, cls, bits = mt
@@ -683,21 +683,15 @@ def gate(ctx, binp, drv):
                             acc = [x + cst[j] * y for x, y in zip(acc, a0[kk + o2 - j])]
                 ex.append([(x + (1 << 63)) % (1 << 64) - (1 << 63) for x in acc])
             cnv_oracle["checked"] += 1
+            if bits > 31:
+                cnv_oracle["by_const_beyond_i32"] += 1
             if got != ex:
-                if be == "avx" and bits > 31:
-                    cnv_oracle["avx_by_const_32bit_truncation"] += 1
-                    key = "poulpy-cpu-avx/src/fft64/convolution.rs:i64_convolution_by_const_*_avx:operands-beyond-i32"
-                    w = {"request": chl[i].split(" ", 1)[1][:2000], "implementation": a_[:600], "exact": ";".join(csv(l) for l in ex)[:600],
-                         "replay": "printf '0 <request>\\n' | harness/target/release/pvh fft64"}
-                    if ctx.match_known(key) is not None:
-                        ctx.violation("FFT64Avx cnv_by_const_apply multiplies only the low 32 bits of its operands (_mm256_mul_epi32)", w, True, key=key)
-                    else:
-                        # proposed known finding (docs/C07.md): recorded as an observation until the coordinator lists the key
-                        cnv_oracle.setdefault("avx_by_const_witness", w)
-                else:
-                    ctx.oracle_failures += 1
-                    broken.append(f"cnv_by_const ({be}) differs from the exact product")
-                    disagree(f"cnv_by_const_apply ({be}) differs from the exact i64 product", chl[i].split(" ", 1)[1][:3000], a_, ";".join(csv(l) for l in ex), True)
+                # plain violation on both back ends (patch 34 made the FFT64Avx lane product an exact wrapping 64x64 product;
+                # the former KNOWN-FINDING handling of operands beyond i32 is gone)
+                ctx.oracle_failures += 1
+                broken.append(f"cnv_by_const ({be}) differs from the exact product")
+                disagree(f"cnv_by_const_apply ({be}) differs from the exact wrapping i64 product", chl[i].split(" ", 1)[1][:3000], a_, ";".join(csv(l) for l in ex), True,
+                         {"k": k, "operand_bits": bits})
             continue
         if op == "cnv":
             pa, pb = prep(A_[0], sl, ml, n), prep(B_[0], sr, mr, n)
